@@ -631,6 +631,16 @@ def _private_merge(ctx, m, rep, cl, undo_independent_only=False):
         if none_valued:
             rep.fail(cl + ".private-merged", "main[mutator-as-value]", "preserve_networks is computed from %s: list.extend/append return None, so nothing would be preserved" % none_valued, where(f_main, call.node), key=cl + ".private-merged|mutator-as-value")
             continue
+        mism = []
+        for x in subterms(v) if v is not None else []:
+            if x[0] == "binop" and x[1] == "+":
+                lt = {t[1] for t in G.types_of(x[2], f_main) if t[0] == "xinst"}
+                rt = {t[1] for t in G.types_of(x[3], f_main) if t[0] == "xinst"}
+                if (lt == {"list"} and rt == {"tuple"}) or (lt == {"tuple"} and rt == {"list"}):
+                    mism.append("%s + %s" % (sorted(lt), sorted(rt)))
+        if mism:
+            rep.fail(cl + ".private-merged", "main[list+tuple]", "preserve_networks is computed as %s (%s): concatenating a list and a tuple raises TypeError when both options are given" % (vs[:120], mism), where(f_main, call.node), key=cl + ".private-merged|list-plus-tuple")
+            continue
         if flag:
             ok = has_rfc and (has_user if given else True)
             rep.ob(cl + ".private-merged", "main[flag,%s]" % ("given" if given else "absent"), ok,
@@ -676,6 +686,8 @@ def c04(ctx, rep):
         rep.fail("C04.default-list", "DEFAULT_PRESERVED_PREFIXES", "does not fold to a list of CIDR texts: %s" % e, "")
     _cli_defaults(ctx, rep, "C04")
     memo_uses(m, rep, "C04")
+    _undo_threading(ctx, m, rep, "C04")  # the image text is computed once from the parsed integer (no re-mapping loop that looks at host bits)
+    _no_cross_state(m, rep, "C04")
 
 
 
@@ -764,6 +776,8 @@ def c05(ctx, rep):
                 rep.fail("C05.preserved-list-writer", f2.qualname, "_preserve_addresses mutated: %s" % show(e.a), where(f2, e.node))
     _pin_iterable(m, rep, "C05")
     m.pin_facts(rep, "C05")
+    memo_uses(m, rep, "C05")  # pins must stay in the memo: nobody else writes, rebinds or clears it
+    _no_cross_state(m, rep, "C05")
     _private_merge(ctx, m, rep, "C05")
     _cli_binding_networks(ctx, m, rep, "C05")
     # IPv6 has no masks/preserved networks: gate must be constant True (nothing else may be skipped)
@@ -922,6 +936,7 @@ def c17(ctx, rep):
     rep.ob("C17.dump-paths", "anonymize_files", n >= 1, "paths with a dump file examined: %d" % n, where(f_files), nontrivial=False)
     # main allows a dump only with --anonymize-ips
     _dump_requires_ips(ctx, rep, "C17")
+    _one_anonymizer_per_run(ctx, m, rep, "C17")  # the dumped memo must be the one every file was processed with
     _cli_defaults(ctx, rep, "C17")
     _undo_threading(ctx, m, rep, "C17")
 
